@@ -243,8 +243,20 @@ class ProtoFlow:
 
     def _collect(self, f: FuncInfo, env: Dict[str, PType]) -> None:
         write_bases: Set[int] = set()     # ids of Attribute nodes that are write targets
+        from .model import local_aliases
+        al = local_aliases(f.node)
+
+        def deref(e: ast.AST) -> ast.AST:
+            """a local bound once to a field of a message stands for that field
+            (``exprs = proto_interval.symbolic_expressions``)"""
+            k = 0
+            while isinstance(e, ast.Name) and isinstance(al.get(e.id), ast.Attribute) and k < 4:
+                e = al[e.id]
+                k += 1
+            return e
 
         def field_of(e: ast.AST) -> Optional[Tuple[str, str, PType]]:
+            e = deref(e)
             if isinstance(e, ast.Attribute):
                 base = self.ptype(e.value, env, f)
                 if base and base[0] == "msg" and e.attr in self.schema.messages[base[1]].fields:
@@ -257,7 +269,7 @@ class ProtoFlow:
             if isinstance(n, (ast.Assign, ast.AugAssign, ast.AnnAssign)):
                 tgs = n.targets if isinstance(n, ast.Assign) else [n.target]
                 for tg in tgs:
-                    fo = field_of(tg)
+                    fo = field_of(tg) if not isinstance(tg, ast.Name) else None
                     if fo:
                         write_bases.add(id(tg))
                         self.writes.append(Access(fo[0], fo[1], f, n, "assign", n.value, base=tg.value))
@@ -270,12 +282,12 @@ class ProtoFlow:
                     elif isinstance(tg, ast.Subscript):
                         fo3 = field_of(tg.value)
                         if fo3 and fo3[2][0] in ("map", "mapscalar"):
-                            write_bases.add(id(tg.value))
+                            write_bases.add(id(deref(tg.value)))
                             self.writes.append(Access(fo3[0], fo3[1], f, n, "mapitem", n.value,
-                                                      key=tg.slice, base=tg.value.value))
+                                                      key=tg.slice, base=deref(tg.value).value))
             elif isinstance(n, ast.Call) and isinstance(n.func, ast.Attribute):
                 meth = n.func.attr
-                recv = n.func.value
+                recv = deref(n.func.value)
                 if meth in ("extend", "append", "add", "MergeFrom") and n.args:
                     fo = field_of(recv)
                     if fo and fo[2][0] in ("rep", "repscalar"):
@@ -289,9 +301,9 @@ class ProtoFlow:
                     elif isinstance(recv, ast.Subscript):
                         fo = field_of(recv.value)
                         if fo and fo[2][0] == "map":
-                            write_bases.add(id(recv.value))
+                            write_bases.add(id(deref(recv.value)))
                             self.writes.append(Access(fo[0], fo[1], f, n, "mapitem", n.args[0],
-                                                      key=recv.slice, base=recv.value.value))
+                                                      key=recv.slice, base=deref(recv.value).value))
                 elif meth == "HasField" and n.args:
                     s = const_str(n.args[0])
                     b = self.ptype(recv, env, f)
